@@ -6,7 +6,7 @@ tie:   the real qmail-smtpd (stand-in qmail-queue recording every submission) on
        badmailfrom, localiphost, databytes, RELAYCLIENT): reply codes, submissions (sender, recipients
        in order) and exit status against the extracted session model; an independent Python reference
        of the documented behaviour is the oracle."""
-import json, sys
+import json, sys, os, subprocess
 import vlib
 from smtp_common import *
 
@@ -70,6 +70,92 @@ def main():
                 fails.append(("smtpd:accepted-what-policy-refuses", dict(kind="input", config="rcpthosts=ok.dom; morercpthosts.cdb = first %d of %d bytes of the file qmail-newmrh compiled from more.dom/.more.dom" % (cut, len(whole)),
                               session=data.decode(), observed_codes=codes, observed_submissions=[e.decode("latin1") for e in done]), cut))
     os.remove(cdbp)
+    # ---- the concrete tables (Base/Cdb.v, Base/Constmap.v, Local/NewU.v, Smtp/RcptHosts.v) against the real code:
+    #      (1) the file qmail-newmrh writes = newmrh_image(text), byte for byte; (2) the table constmap_init builds =
+    #      the model's (mask, bucket heads, per-entry length/hash/next) and every lookup agrees; (3) rcpthosts() of the real
+    #      qmail-smtpd on intact, truncated and damaged files answers 250 / 553 / 421 exactly where rcpthosts_c says Yes / No / Error
+    tdrv = vlib.build_driver("TBL")
+    objs_, libs_ = rb.link_deps("qmail-smtpd")
+    hcm = rb.compile_harness(os.path.join(vlib.VERIF, "harness", "h_cmap.c"), os.path.join(vlib.scratch(), "h_cmap"), objs=[o for o in objs_ if o != "constmap.o"], libs=libs_)
+    hcdb = rb.harness("h_cdb", "qmail-newmrh", extra_objs=["cdb.a"])
+    cdbtmp = os.path.join(vlib.scratch(), "h_cdb.tmp")
+    PIECES = [b"more.dom", b".More.DOM", b"# comment", b"", b" ", b"x.y \t ", b"  lead", b"#", b"a\tb", b"dup", b"dup", b"ZONE.example", b".zz.Dom", b"jazz.dom"]
+    texts = [b"more.dom\n.more.dom\n", b"", b"\n", b"no-newline-at-end"]
+    for _ in range(40 if ck.thorough else 12):
+        t = b"".join(rng.choice(PIECES) + rng.choice([b"\n", b"\n", b" \n", b"\t\n"]) for _ in range(rng.randint(0, 9)))
+        texts.append(t[:-1] if t and rng.random() < 0.3 else t)
+    texts.append(b"".join(b"h%d.bulk.dom\n" % k for k in range(400)))          # many records: collisions and long probe chains
+    imgs = []
+    for t in texts:
+        open(os.path.join(S.cd, "morercpthosts"), "wb").write(t)
+        if os.path.exists(cdbp): os.remove(cdbp)
+        r_ = subprocess.run([rb.path("qmail-newmrh")], env=vlib.shim_env(S.home), cwd=S.home, stdout=subprocess.PIPE, stderr=subprocess.PIPE)
+        imgs.append(open(cdbp, "rb").read() if r_.returncode == 0 and os.path.exists(cdbp) else None)
+    mimg, _, _ = vlib.run_lines(tdrv, ["newmrh " + vlib.hx(t) for t in texts])
+    for t, real, m_ in zip(texts, imgs, mimg):
+        ck.evaluated(); ck.count("newmrh_images"); ck.nontrivial(("mrh", t))
+        if real is None or vlib.hx(real) != m_:
+            mism.append(dict(kind="input", component="qmail-newmrh", text=t.decode("latin1")[:300], real_len=None if real is None else len(real), model_len=len(m_) // 2,
+                             first_difference=None if real is None else next((i for i, (a_, b_) in enumerate(zip(vlib.hx(real), m_)) if a_ != b_), None)))
+    # lookups through the real reader on intact and damaged images, and the whole rcpthosts() through the real qmail-smtpd
+    rhl = [b"ok.dom", b"Plaza.Example"]
+    crh = dict(gen_cfg(rng), rcpthosts=rhl, morercpthosts=[], badmailfrom=None, relayclient=None, databytes=0, localiphost=None)
+    S.configure(crh)
+    rhbuf = b"".join(x + b"\0" for x in rhl)
+    glines, sess = [], []
+    for t, real in list(zip(texts, imgs))[:(len(texts) if ck.thorough else 10)]:
+        if real is None: continue
+        variants = [real]
+        for _ in range(3):
+            k_ = rng.random()
+            if k_ < 0.5: variants.append(real[:rng.randrange(len(real) + 1)])
+            else:
+                i_ = rng.randrange(len(real)) if k_ < 0.8 else rng.randrange(0, 2048)
+                variants.append(real[:i_] + bytes([rng.randrange(256)]) + real[i_ + 1:])
+        for img in variants:
+            if len(img) > 20000: continue
+            for dom in [b"more.dom", b"sub.more.dom", b"MORE.dom", b"x.y", b"a\tb", b"zone.example", b"q.zz.dom", b"unlisted.dom", b"ok.dom", b"dup", b"lead"]:
+                glines.append("get %s %s" % (vlib.hx(img), vlib.hx(dom.lower())))
+                sess.append((img, dom))
+    ga, _, _ = vlib.run_lines([hcdb, cdbtmp], glines)
+    gb, _, _ = vlib.run_lines(tdrv, glines)
+    for l_, x_, y_ in zip(glines, ga, gb):
+        ck.evaluated(); ck.count("cdb_lookups_" + x_[:1])
+        if x_ != y_: mism.append(dict(kind="input", component="cdb_seek", query=l_[:200], real=x_, model=y_))
+    sub = sess if ck.thorough else rng.sample(sess, min(len(sess), 120))
+    rl, _, _ = vlib.run_lines(tdrv, ["rh %s %s %s" % (vlib.hx(rhbuf), vlib.hx(img), vlib.hx(b"joe@" + dom)) for img, dom in sub])
+    for (img, dom), mr in zip(sub, rl):
+        open(cdbp, "wb").write(img)
+        data = b"MAIL FROM:<s@x.example>\r\nRCPT TO:<joe@" + dom + b">\r\nQUIT\r\n"
+        out, rc, subs = S.run(crh, data, [0])
+        codes = reply_codes(out)[1:]
+        ck.evaluated(); ck.count("rcpthosts_on_files_" + mr)
+        ck.nontrivial(("rhf", img, dom))
+        want = {"Y": 250, "N": 553, "E": 421}[mr]
+        got = codes[1] if len(codes) > 1 else None
+        obj = dict(kind="input", config="rcpthosts=ok.dom,Plaza.Example; morercpthosts.cdb = %d bytes (hex %s...)" % (len(img), img[:24].hex()), session=data.decode("latin1"), observed_codes=codes, model=mr)
+        if got == 250 and mr != "Y" and not any(k in dom.lower() for k in [b"ok.dom"]):
+            fails.append(("smtpd:accepted-what-policy-refuses", obj, len(img)))
+        elif got != want: mism.append(obj)
+    if os.path.exists(cdbp): os.remove(cdbp)
+    # constmap: structure and lookups
+    cl = []
+    for _ in range(60 if ck.thorough else 20):
+        n_ = rng.choice([0, 1, 2, 5, 20, 63, 64, 65, 130])
+        alpha = rng.choice([b"abAB@.", b"azAZ@.x", bytes(range(1, 256))])
+        ls_ = [bytes(rng.choice(alpha) for _ in range(rng.choice([0, 1, 2, 3, 5, 9]))) for _ in range(n_)]
+        buf = b"".join(l + b"\0" for l in ls_)
+        cl.append("dump 0 %s" % vlib.hx(buf))
+        for _ in range(5):
+            k_ = rng.choice(ls_) if ls_ and rng.random() < 0.7 else bytes(rng.choice(alpha) for _ in range(rng.randint(0, 4)))
+            k_ = bytes((c_ ^ 0x20) if (65 <= c_ <= 90 or 97 <= c_ <= 122) and rng.random() < 0.4 else c_ for c_ in k_)
+            cl.append("cm 0 %s %s" % (vlib.hx(buf), vlib.hx(k_)))
+    for c_ in range(256): cl.append("hash %02x61" % c_)
+    ca, _, _ = vlib.run_lines(hcm, cl)
+    cb, _, _ = vlib.run_lines(tdrv, [l.replace("hash ", "cmhash ") for l in cl])
+    for l_, x_, y_ in zip(cl, ca, cb):
+        ck.evaluated(); ck.count("constmap_" + l_.split()[0])
+        if x_ != y_: mism.append(dict(kind="input", component="constmap", query=l_[:200], real=x_[:200], model=y_[:200]))
     for (c, data, exits, out, rc, subs), m in zip(jobs, ml):
         ck.evaluated(); ck.count("sessions")
         ck.nontrivial((str(sorted((k, str(v)) for k, v in c.items())), data))
